@@ -123,6 +123,13 @@ func (ex *Exec) loopHead(l *Loop, b *ssa.BasicBlock, edges []edge, reachIn strin
 		}
 		h := vc.fresh("lh_"+key, srt)
 		nst.m[key] = h
+		if key != "alloc" {
+			defer func(key, srt, h string) {
+				if f := memInv(key, srt, h, ex.get(nst, "alloc", "(Array Int Bool)")); f != "" {
+					vc.assume(f)
+				}
+			}(key, srt, h)
+		}
 		if key == "alloc" {
 			vc.assume(fmt.Sprintf("(forall ((r Int)) (! (=> (select %s r) (select %s r)) :pattern ((select %s r))))", ex.get(st, "alloc", srt), h, h))
 			vc.assume(sNot(sSel(h, "0")))
